@@ -169,6 +169,8 @@ type env struct {
 
 func newEnv(o *obs, reply bool) *env {
 	e := &env{o: o}
+	vsync.Init(&e.wg, "harness.wg")
+	vsync.Init(&e.bg, "harness.bg")
 	cfg := gnet.NewConfig()
 	cfg.Address = "127.0.0.1"
 	cfg.Port = 7000
@@ -343,6 +345,7 @@ var harnesses = []harness{
 		e := newEnv(o, false)
 		e.run()
 		var closeA vsync.WaitGroup
+		vsync.Init(&closeA, "closeA")
 		closeA.Add(1)
 		e.background("peerA", func() {
 			c, err := vnet.DialFrom(peerA, poolAddr)
@@ -375,6 +378,7 @@ var harnesses = []harness{
 		e := newEnv(o, true)
 		e.run()
 		var goAhead vsync.WaitGroup
+		vsync.Init(&goAhead, "goAhead")
 		goAhead.Add(1)
 		e.background("peer", func() {
 			c, err := vnet.DialFrom(peerA, poolAddr)
